@@ -484,6 +484,10 @@ class Visitor(ast.NodeVisitor):
         if node.id in self._name_to_value:
             result = self._name_to_value[node.id]
 
+            # The name refers to a target of an enclosing comprehension which shadows a variable.
+            if result is PLACEHOLDER:
+                return PLACEHOLDER
+
         elif hasattr(builtins, node.id):
             result = getattr(builtins, node.id)
 
